@@ -1,17 +1,17 @@
 P = "github.com/tochemey/goakt/v4/internal/cluster."
-PEERS = {"(*github.com/tochemey/goakt/v4/discovery.Node).PeersAddress": P + "vC34_peersAddress"}
-NODROP = dict(PEERS)
-NODROP["(*" + P[:-1] + ".cluster).sendEventLocked"] = P + "vC34_sendNoDrop"
 CHECK = {
     "id": "C34",
     "packages": ["./internal/cluster"],
     "harness": ["internal/cluster/zz_verif_c34.go"],
     "entries": [
-        {"fn": P + "vC34_history2", "tiers": ("quick",)},
-        {"fn": P + "vC34_history4", "tiers": ("quick",)},
-        {"fn": P + "vC34_progress4", "tiers": ("quick",), "opts": {"substitute": NODROP}},
+        {"fn": P + "vC34_init"},
+        {"fn": P + "vC34_step"},
+        {"fn": P + "vC34_history2"},
+        {"fn": P + "vC34_redeparture"},
     ],
-    "opts": {"unwind": 10, "substitute": PEERS},
+    "opts": {"unwind": 16, "select_precise": True, "birth_guard_stores": True,
+             "substitute": {"(*github.com/tochemey/goakt/v4/discovery.Node).PeersAddress": P + "vC34_peersAddress"},
+             "stub": ["(*" + P + "cluster).detectLeaderChangeLocked"]},
     "explanation": "",
     "bounds": {},
 }
